@@ -162,10 +162,12 @@ Rnto(q) ==
            ELSE LET acc == << <<"rename", f.path>>, <<"rename", t.path>> >>
                     a == f.segs
                     b == t.segs
-                    ok == /\ Exists(a) /\ b # <<>> /\ a # <<>> /\ IsDir(Parent(b))
-                          /\ ~(a # b /\ IsPrefixSeq(a, b))                      \* not into itself
-                          /\ (IsFile(a) => ~IsDir(b))
-                          /\ (IsDir(a) => (~Exists(b) \/ (IsDir(b) /\ Kids(b) = {})))
+                    ok == /\ Exists(a)
+                          /\ \/ a = b                                            \* rename onto itself succeeds
+                             \/ /\ b # <<>> /\ a # <<>> /\ IsDir(Parent(b))
+                                /\ ~IsPrefixSeq(a, b)                             \* not into itself
+                                /\ (IsFile(a) => ~IsDir(b))
+                                /\ (IsDir(a) => (~Exists(b) \/ (IsDir(b) /\ Kids(b) = {})))
                 IN  /\ last' = Reply("RNTO", q, ok, acc) /\ Touch(acc) /\ Same
                     /\ dirs'  = IF ok /\ a # b THEN {Moved(s, a, b) : s \in dirs \ (IF IsDir(a) THEN {b} ELSE {})} ELSE dirs
                     /\ files' = IF ok /\ a # b THEN {Moved(s, a, b) : s \in files \ (IF IsFile(a) THEN {b} ELSE {})} ELSE files
